@@ -410,31 +410,26 @@ func TestVerifC17Ipset(t *testing.T) {
 		}
 	}
 
-	list := make([]int, 0, 4)
-	// length 0 and 1 (shard 0 owns the empty list)
-	if c.Mine(0) {
-		if !run(list) {
-			return
-		}
-		tally(list)
-	}
+	list := make([]int, 0, 5)
 	samples := 0
-	var rec func(depth int) bool
-	rec = func(depth int) bool {
-		if !run(list) {
-			return false
-		}
-		tally(list)
-		if samples < 2 && len(list) == maxLen && list[0] != list[1] {
-			samples++
-			c.Sample(map[string]any{"list": vkListKey(u, list)})
-		}
-		if depth == maxLen {
+	// rec evaluates every extension of the current list (the list itself was
+	// evaluated by the caller), depth first, up to maxLen.
+	var rec func() bool
+	rec = func() bool {
+		if len(list) == maxLen {
 			return true
 		}
 		for i := 0; i < n; i++ {
 			list = append(list, i)
-			ok := rec(depth + 1)
+			ok := run(list)
+			if ok {
+				tally(list)
+				if samples < 2 && len(list) == maxLen && list[0] != list[1] {
+					samples++
+					c.Sample(map[string]any{"list": vkListKey(u, list)})
+				}
+				ok = rec()
+			}
 			list = list[:len(list)-1]
 			if !ok {
 				return false
@@ -442,26 +437,53 @@ func TestVerifC17Ipset(t *testing.T) {
 		}
 		return true
 	}
-	// shard on the first TWO entries so that 16 shards divide evenly
-	work := 0
-	for i := 0; i < n; i++ {
-		if c.Mine(work) {
-			list = append(list[:0], i)
-			if !run(list) {
-				break
-			}
+	// Phase A — shard 0 owns every list of length 0, 1 and 2, shortest first,
+	// so the first counterexample the driver prints is a shortest one.
+	stop := false
+	if c.Mine(0) {
+		if !run(list) {
+			stop = true
+		} else {
 			tally(list)
 		}
-		work++
-		for j := 0; j < n; j++ {
-			if c.Mine(work) {
-				list = append(list[:0], i, j)
-				if !rec(2) {
-					i = n
+		for l := 1; l <= 2 && l <= maxLen && !stop; l++ {
+			idx := make([]int, l)
+			for !stop {
+				list = append(list[:0], idx...)
+				if !run(list) {
+					stop = true
+					break
+				}
+				tally(list)
+				k := l - 1
+				for k >= 0 {
+					idx[k]++
+					if idx[k] < n {
+						break
+					}
+					idx[k] = 0
+					k--
+				}
+				if k < 0 {
 					break
 				}
 			}
+		}
+	}
+	// Phase B — lists of length >= 3, sharded on the first two entries.
+	work := 0
+	for i := 0; i < n && !stop; i++ {
+		for j := 0; j < n; j++ {
+			mine := c.Mine(work)
 			work++
+			if !mine {
+				continue
+			}
+			list = append(list[:0], i, j)
+			if !rec() {
+				stop = true
+				break
+			}
 		}
 		if c.OverBudget() {
 			c.Cap("ipset: time budget hit")
